@@ -32,6 +32,11 @@ def run(chk: Check):
     traces += D.engine_traces(gs.NUTSKernel, ["zz", "aa"], ["mm", "Beta"], True, seed=chk.seed, slow=(8, 8))
     # a mass-matrix kernel next to a kernel that does not need the history
     traces += D.engine_traces(gs.HMCKernel, ["zz", "aa"], ["mm"], True, seed=chk.seed + 9, chains=1, companion="rw")
+    # the schedule ends with a slow-adaptation epoch; epochs appended and sampled one at a time
+    traces += D.engine_traces(gs.HMCKernel, ["zz", "aa"], ["mm"], True, seed=chk.seed + 10, chains=1, companion="rw",
+                              tail_posterior=False)
+    traces += D.engine_traces(gs.HMCKernel, ["zz", "aa"], ["mm"], True, seed=chk.seed + 11, chains=1, companion="rw", stepwise=True,
+                              slow=(8, 8))
     if not chk.quick:
         traces += D.engine_traces(gs.HMCKernel, ["zz", "aa"], ["mm", "Beta"], False, seed=chk.seed + 1)
         traces += D.engine_traces(gs.NUTSKernel, ["k", "b1", "Z"], ["alpha_2"], False, seed=chk.seed + 2, slow=(9, 9, 12))
